@@ -24,6 +24,7 @@ import (
 	"time"
 
 	"github.com/containernetworking/cni/pkg/skel"
+	appv1 "k8s.io/api/apps/v1"
 	corev1 "k8s.io/api/core/v1"
 	networkv1 "k8s.io/api/networking/v1"
 	apierrors "k8s.io/apimachinery/pkg/api/errors"
@@ -106,6 +107,7 @@ func errClass(err error) (string, string) {
 // ---------------------------------------------------------------- world
 
 type world struct {
+	smalld   *lockset.Ipamd // instance whose keyed-lock tables have ONE bucket each: any two keys of a table collide
 	confd    *lockset.Ipamd // the instance the configuration surface reloads (kept apart: its pools are whatever the last case left)
 	ipamd    *lockset.Ipamd
 	last     string
@@ -166,6 +168,27 @@ func planFor(in []byte) faultPlan {
 
 func podsGR() schema.GroupResource { return schema.GroupResource{Resource: "pods"} }
 
+// workloads the generated pods belong to (a deployment pod's Filter asks for the replicas of its deployment first)
+func workloads() []k8sruntime.Object {
+	n := int32(8)
+	return []k8sruntime.Object{
+		&appv1.Deployment{ObjectMeta: metav1.ObjectMeta{Name: "dp", Namespace: "ns1"}, Spec: appv1.DeploymentSpec{Replicas: &n}},
+		&appv1.StatefulSet{ObjectMeta: metav1.ObjectMeta{Name: "a", Namespace: "ns1"}, Spec: appv1.StatefulSetSpec{Replicas: &n}},
+	}
+}
+
+func (w *world) smallLockIpam() *lockset.Ipamd {
+	if w.smalld == nil {
+		d, err := lockset.NewIpamd(lockset.DefaultPools, workloads()...)
+		if err != nil {
+			panic("ipamd setup: " + err.Error())
+		}
+		d.Plugin.VerifLsShrinkLockPools(1)
+		w.smalld = d
+	}
+	return w.smalld
+}
+
 func (w *world) confIpam() *lockset.Ipamd {
 	if w.confd == nil {
 		d, err := lockset.NewIpamd(lockset.DefaultPools)
@@ -180,7 +203,7 @@ func (w *world) confIpam() *lockset.Ipamd {
 
 func (w *world) ipam() *lockset.Ipamd {
 	if w.ipamd == nil {
-		d, err := lockset.NewIpamd(lockset.DefaultPools)
+		d, err := lockset.NewIpamd(lockset.DefaultPools, workloads()...)
 		if err != nil {
 			panic("ipamd setup: " + err.Error())
 		}
@@ -460,6 +483,25 @@ var surfaces = []*surface{
 		}
 		err = d.Plugin.Bind(&schedulerapi.ExtenderBindingArgs{PodName: pod.Name, PodNamespace: pod.Namespace, PodUID: pod.UID,
 			Node: bindNode(pod, h.Sum32())})
+		d.Plugin.VerifLsDrainUnreleased()
+		return errClass(err)
+	}},
+	{name: "keyedlocks", family: "smalllocks", call: func(w *world, in []byte) (string, string) {
+		// the pod key and the deployment / pool key of the same request forced into the same bucket (tables of one bucket):
+		// every operation that nests the two keyed locks must still answer
+		pod, err := decodePod(in)
+		if err != nil {
+			return errClass(err)
+		}
+		d := w.smallLockIpam()
+		if pod.Name != "" {
+			d.Ctx.PodInformer.Informer().GetIndexer().Add(pod)
+			defer d.Ctx.PodInformer.Informer().GetIndexer().Delete(pod)
+		}
+		_, _, err = d.Plugin.Filter(pod, d.Nodes)
+		d.Plugin.Bind(&schedulerapi.ExtenderBindingArgs{PodName: pod.Name, PodNamespace: pod.Namespace, PodUID: pod.UID, Node: "node1"})
+		d.Plugin.VerifLsUnbind(pod)
+		d.Plugin.VerifLsResyncPod()
 		d.Plugin.VerifLsDrainUnreleased()
 		return errClass(err)
 	}},
@@ -774,6 +816,10 @@ func workerMain() {
 			o.Follow = "-"
 			if o.Class != "skip" {
 				switch s.family {
+				case "smalllocks":
+					if o.Class == "hang" || o.Class == "panic" {
+						w.smalld = nil
+					}
 				case "ipamconf":
 					c, d := guard(maxDur(watchdog, override), func() (string, string) { return w.followIpam(w.confIpam(), nil) })
 					o.Follow, o.FDet = followClass(c), d
